@@ -35,5 +35,5 @@ def run(prog, tier):
     p_c11.check_trimmer(prog, res, 'string-trim')
     # the content that is saved is the content the value setters stored
     import setters
-    setters.rule(prog, res, {'ezc3d::DataNS::Points3dNS::Point', 'ezc3d::DataNS::AnalogsNS::Channel'}, rule_name='build-setters', minimum=5)
+    setters.rule(prog, res, {'ezc3d::DataNS::Points3dNS::Point', 'ezc3d::DataNS::AnalogsNS::Channel'}, rule_name='build-setters', minimum=5, exclusive=True)
     return res
